@@ -109,6 +109,13 @@ static int share_same(const ascon_masked_word_t *x, const ascon_masked_word_t *y
 #endif
 }
 
+/* a word that uses n shares does not define the remaining slots: fill them with garbage so that an operation
+ * that wrongly reads them (e.g. a conversion assuming they are zero) computes a wrong value */
+static void poison_unused(ascon_masked_word_t *w, int n)
+{
+    for (int s = n; s < MS; ++s) w->S[s] = 0xEEEEEEEE00000000ULL | rng_below(R, 0xffffffffu);
+}
+
 static ascon_masked_word_t *walloc(void) { return (ascon_masked_word_t *)galloc(sizeof(ascon_masked_word_t), (int)rng_below(R, 2)); }
 
 static void chk(const ops_t *o, const char *op, const ascon_masked_word_t *w, const uint8_t exp[8], const char *ctx)
@@ -160,6 +167,7 @@ static void case_words(uint64_t idx)
         gfree(src); gfree(dst);
     }
     o->load(w, a, &trng); o->load(w2, b, &trng);
+    poison_unused(w2, o->n);
     o->xor_(w, w2);
     for (int i = 0; i < 8; ++i) exp[i] = a[i] ^ b[i];
     chk(o, "xor", w, exp, ctx); chk(o, "xor-src-unchanged", w2, b, ctx);
@@ -178,9 +186,11 @@ static void case_words(uint64_t idx)
         if (m == o->n || !o->from[m]) continue;
         memset(w, 0xEE, sizeof(*w));
         om->load(w2, b, &trng);
+        poison_unused(w2, m);
         o->from[m](w, w2, &trng);
         snprintf(opn, sizeof(opn), "from_x%d", m); chk(o, opn, w, b, ctx);
         om->load(w2, a, &trng);
+        poison_unused(w2, m);
         o->from[m](w2, w2, &trng);
         snprintf(opn, sizeof(opn), "from_x%d-inplace", m); chk(o, opn, w2, a, ctx);
     }
@@ -260,6 +270,7 @@ static void case_perm(uint64_t idx)
         const ops_t *om = ops_for(m);
         if (!om || !om->copy_from[o->n]) continue;
         ascon_masked_state_init(ms2);
+        for (int wd = 0; wd < 5; ++wd) poison_unused(&ms->M[wd], o->n);
         om->copy_from[o->n](ms2, ms, &trng);
         state_value(om, ms2, got);
         snprintf(key, sizeof(key), "state:x%d:copy_from_x%d", m, o->n);
